@@ -442,6 +442,18 @@ class Validator:
             for a, b in ((e.left, e.comparators[0]), (e.comparators[0], e.left)):
                 if isinstance(a, ast.Name) and a.id == X and isinstance(b, ast.Name) and b.id in self.rootvars:
                     return ("eq-root", b.id, isinstance(e.ops[0], ast.Eq))  # the path is the root directory itself
+                if isinstance(a, ast.Name) and a.id == X:
+                    # ... or the root with its trailing separator taken off again: root[:-1] / root[:-len(sep)] / root.rstrip(sep)
+                    base = None
+                    if isinstance(b, ast.Subscript) and isinstance(b.value, ast.Name) and b.value.id in self.rootvars and isinstance(b.slice, ast.Slice) and b.slice.lower is None and b.slice.step is None \
+                            and isinstance(b.slice.upper, ast.UnaryOp) and isinstance(b.slice.upper.op, ast.USub):
+                        u_ = b.slice.upper.operand
+                        if (isinstance(u_, ast.Constant) and u_.value == 1) or (isinstance(u_, ast.Call) and isinstance(u_.func, ast.Name) and u_.func.id == "len" and len(u_.args) == 1 and self.sep(u_.args[0], at)):
+                            base = b.value.id
+                    if isinstance(b, ast.Call) and isinstance(b.func, ast.Attribute) and b.func.attr == "rstrip" and isinstance(b.func.value, ast.Name) and b.func.value.id in self.rootvars and len(b.args) == 1 and self.sep(b.args[0], at):
+                        base = b.func.value.id
+                    if base is not None:
+                        return ("eq-root", base, isinstance(e.ops[0], ast.Eq))
         if isinstance(e, ast.Compare) and len(e.ops) == 1 and isinstance(e.ops[0], ast.Eq):
             for a, b in ((e.left, e.comparators[0]), (e.comparators[0], e.left)):
                 if isinstance(a, ast.Call) and q.dotted(a.func) in ("os.path.commonprefix", "os.path.commonpath") and isinstance(b, ast.Name) and b.id in self.rootvars and len(a.args) == 1 \
@@ -834,6 +846,9 @@ def normalise(ck):
 
     roots = [SF + "." + m for m in ("get", "validate_absolute_path", "get_absolute_path", "head")]
     ck.repo = inlined(ck.repo, W, roots, lambda name, h: name in VOCABULARY, lambda h: mentions_any(h, INGREDIENTS))
+    from ..x_secinline import dealiased
+
+    ck.repo = dealiased(ck.repo, W, roots)  # `isdir = os.path.isdir` and the like: the local is the module attribute
     for nm in getattr(ck.repo, "inlined_helpers", []):
         ck.note("inlined private helper %s into its caller before analysis" % nm)
 
